@@ -3,6 +3,7 @@ package sessiontracker
 import (
 	"fmt"
 	"strconv"
+	"sync"
 	"time"
 
 	"github.com/elastic/go-libaudit/v2/aucoalesce"
@@ -34,6 +35,12 @@ func NewSessionTracker(eventWriter *auditevent.EventWriter, l *zap.SugaredLogger
 // allowing us to correlate auditd events back to the credential
 // a user used to authenticate.
 type sessionTracker struct {
+	// mu serializes the public methods. Logins, audit events and cache
+	// cleanup are delivered from different Go routines, and each of them
+	// inspects one map and then updates the other; the per-map locks alone
+	// do not make those check-then-act sequences atomic.
+	mu sync.Mutex
+
 	// sessIDsToUsers contains active auditd sessions which may
 	// or may not have a common.RemoteUserLogin associated with
 	// them. It also acts as an auditd event cache.
@@ -62,6 +69,9 @@ type sessionTracker struct {
 // RemoteLogin validates and checks if there is an auditd session already present for the
 // RemoteLogin passed as parameter. It modifies the user object by setting the remote login information.
 func (o *sessionTracker) RemoteLogin(rul common.RemoteUserLogin) error {
+	o.mu.Lock()
+	defer o.mu.Unlock()
+
 	var debugLogger *zap.SugaredLogger
 	if o.l.Level().Enabled(zap.DebugLevel) {
 		debugLogger = o.l.With("RemoteUserLogin", rul)
@@ -140,6 +150,9 @@ func (o *sessionTracker) RemoteLogin(rul common.RemoteUserLogin) error {
 // It checks if the event session is present in active audit sessions and then it triggers the audit with that session.
 // If the event is not present then it triggers the audit without the session.
 func (o *sessionTracker) AuditdEvent(event *aucoalesce.Event) error {
+	o.mu.Lock()
+	defer o.mu.Unlock()
+
 	// TODO: Handle the "SystemAction" type (where session == "unset").
 	//  ps: "unset" is a string.
 
@@ -292,6 +305,9 @@ func (o *sessionTracker) auditEventWithoutSession(event *aucoalesce.Event, debug
 // DeleteUsersWithoutLoginsBefore it takes a time parameter. It iterates over active audit sessions.
 // If the session is added before the timestamp and the user does not have a remote login, then it deletes that session.
 func (o *sessionTracker) DeleteUsersWithoutLoginsBefore(t time.Time) {
+	o.mu.Lock()
+	defer o.mu.Unlock()
+
 	var debugLogger *zap.SugaredLogger
 	if o.l.Level().Enabled(zap.DebugLevel) {
 		debugLogger = o.l.With(
@@ -321,6 +337,9 @@ func (o *sessionTracker) DeleteUsersWithoutLoginsBefore(t time.Time) {
 // It iterates over remote user logins and checks if a login was before the timestamp,
 // then it deletes that remote user login.
 func (o *sessionTracker) DeleteRemoteUserLoginsBefore(t time.Time) {
+	o.mu.Lock()
+	defer o.mu.Unlock()
+
 	var debugLogger *zap.SugaredLogger
 	if o.l.Level().Enabled(zap.DebugLevel) {
 		debugLogger = o.l.With(
